@@ -41,7 +41,8 @@ LEVEL_TEXT = ("Exploration: thousands of generated documents (1-6 alternatives p
               " Files are also reached through relative, doubled-separator and '<link>/..' spellings (with a decoy where a lexical clean-up would look)."
               " from_stream on real file objects and FileReader streams; comments with unbalanced brackets; documents of exactly 4096k points."
               " Form feed and Unicode line-boundary characters inside comments."
-              " Streams whose reads convert another document; the same unchanged file converted twice.")
+              " Streams whose reads convert another document; the same unchanged file converted twice."
+              " One document of more than 2^20 characters per shard; conversions with a custom type table and column names (directly and through a converter subclass).")
 LEVEL_NOTE = ("Comments are placed at line ends anywhere between tokens except inside a point or a "
               "marker (before the document, after brackets, bars, points, colour markers and the "
               "label); colour markers before the label and between points. Expected coordinates are float32(float(token)). The step budget is "
